@@ -35,6 +35,9 @@ struct Obj
 	bool connected = false;
 	bool recv_pending = false;
 	int gen = 0; // bumps when the object is replaced (move / destroy): stale handlers are ignored
+	// endpoints this object was bound to before it was bound again: whether it still holds them while open is
+	// not specified, so nobody touches them until the object is closed; from then on they must be free
+	std::vector<model::Ep> earlier_eps;
 };
 
 struct Reg
@@ -55,6 +58,7 @@ struct Reg
 	udp::endpoint rfrom[k_max_objs];
 	std::vector<std::pair<int, std::vector<uint8_t>>> udp_got; // (obj, payload)
 	std::set<std::pair<int, model::Ep>> universe;          // endpoints ever bound, for probing
+	std::set<std::pair<int, model::Ep>> tainted;           // see Obj::earlier_eps
 	uint64_t steps = 0;
 
 	Reg(Plan const& p, Ctx& c) : plan(p), ctx(c) {}
@@ -98,6 +102,8 @@ struct Reg
 	void model_release(int i)
 	{
 		Obj& o = objs[i];
+		for (auto const& e : o.earlier_eps) tainted.erase({proto_of(o), e});
+		o.earlier_eps.clear();
 		if (o.bound) reg.release(proto_of(o), o.ep, i);
 		o.bound = false;
 		o.listening = false;
@@ -148,10 +154,15 @@ struct Reg
 		check_view(i, "open");
 	}
 
-	void do_bind(int i, int64_t mode, int64_t arg)
+	void do_bind(int i, int64_t mode_in, int64_t arg)
 	{
+		int64_t mode = mode_in;
 		Obj& o = objs[i];
-		if (!o.open || o.bound) return; // one bind per incarnation
+		if (!o.open) return;
+		bool const again = o.bound;
+		// a second bind on a bound socket: only now and then, only while idle, only to a plain free endpoint
+		if (again && ((arg & 7) != 3 || o.listening || o.connected || o.connect_pending || o.accept_pending || o.recv_pending)) return;
+		if (again) mode = 0;
 		model::BindRequest r;
 		r.proto = proto_of(o);
 		r.sock_v4 = o.v4;
@@ -204,6 +215,9 @@ struct Reg
 		if (r.wildcard) a = r.addr_v4 ? ip::address(ip::address_v4::any()) : ip::address(ip::address_v6::any());
 		else a = ip::make_address(addr);
 		model::BindVerdict const v = reg.judge(r);
+		// endpoints in limbo (see Obj::earlier_eps) are left alone
+		if (!r.wildcard && tainted.count({r.proto, model::Ep{addr, r.port}})) return;
+		if (again && !v.must_succeed) return;
 		error_code ec;
 		if (o.kind == 2) o.u->bind(udp::endpoint(a, uint16_t(r.port)), ec);
 		else if (o.kind == 1) o.a->bind(tcp::endpoint(a, uint16_t(r.port)), ec);
@@ -211,6 +225,16 @@ struct Reg
 		ctx.tr.rec("bind", {i, int64_t(mode % 8), ec.value()}, {r.port});
 		std::string const what = "bind of object " + std::to_string(i) + " (" + (o.kind == 2 ? "udp" : o.kind == 1 ? "acceptor" : "tcp") + ", node " + std::to_string(o.node)
 			+ ") to " + (r.wildcard ? std::string("wildcard") : addr) + ":" + std::to_string(r.port);
+		if (again)
+		{
+			// rejecting a second bind is as legitimate as honouring it
+			ctx.hit("bind_again");
+			if (ec) { check_view(i, "rejected second bind"); return; }
+			reg.release(r.proto, o.ep, i);
+			o.earlier_eps.push_back(o.ep);
+			tainted.insert({r.proto, o.ep});
+			o.bound = false;
+		}
 		if (v.must_succeed)
 		{
 			if (ec) { fail("registry.bind.refused", what + " failed with " + errname(ec.value()) + " although the endpoint is free and valid"); return; }
@@ -453,6 +477,7 @@ struct Reg
 		int serial = 0;
 		for (auto const& pe : universe)
 		{
+			if (tainted.count(pe)) continue;
 			model::Ep const& e = pe.second;
 			ip::address const addr = ip::make_address(e.addr);
 			// probe from a node that has an address of that family
